@@ -11,6 +11,8 @@ pub mod lexer;
 pub mod parser;
 pub mod table;
 pub mod tokens;
+#[cfg(feature = "verif")]
+pub mod verif;
 
 pub trait ToRange {
     fn to_range(&self) -> Range<usize>;
@@ -75,8 +77,14 @@ impl AnalyzedSource {
     pub fn update(self, changes: Vec<TextChange>) -> Self {
         let mut analysed_source = changes.into_iter().fold(self, |mut acc, change| {
             acc.text.replace_range(change.to_range(), &change.text);
+            #[cfg(feature = "verif")]
+            let old_tokens = verif::lex_observed().then(|| acc.tokens.clone());
             let (new_tokens, token_change) = lexer::update(&acc.text, acc.tokens, &change);
             acc.tokens = new_tokens;
+            #[cfg(feature = "verif")]
+            if let Some(old_tokens) = old_tokens {
+                verif::lex_updated(&old_tokens, &acc.tokens, &token_change, &acc.text, &change);
+            }
             acc.ast = parser::update(
                 acc.ast,
                 TokenStream::new_with_change(&acc.tokens, token_change),
